@@ -671,6 +671,58 @@ def round13_entries():
     return out
 
 
+def round14_entries():
+    """closing the misses of seed round 14"""
+    out = []
+    # an explicit maximum of 0 (LLVM: unbounded) is not an omitted maximum
+    for a, b in ((1, 0), (4, 0), (0, 0), (2, 2), (1, 16)):
+        out.append(("vscale_range.%d-%d" % (a, b), "declare void @f() vscale_range(%d, %d)\n" % (a, b), ["vscale_range(%d, %d)" % (a, b)]))
+        out.append(("vscale_range.group.%d-%d" % (a, b), "declare void @f() #0\n\nattributes #0 = { vscale_range(%d, %d) }\n" % (a, b), ["vscale_range(%d, %d)" % (a, b)]))
+    out.append(("vscale_range.single", "declare void @f() vscale_range(8)\n", ["vscale_range(8)"]))
+    # a global variable with metadata attachments AND attributes (grammar: attachments first, attributes last)
+    out.append(("global.metadata-then-attrs", '@c = global i32 0, align 4, !foo !0 #0\n@d = external global i8, !foo !0, !bar !0 "k"="v"\n\nattributes #0 = { "k"="v" }\n\n!0 = !{}\n',
+                ['@c = global i32 0, align 4, !foo !0 #0', '@d = external global i8, !foo !0, !bar !0 "k"="v"']))
+    # blocks named by digits (quoted) next to unnamed blocks with the same number, as operands of blockaddress (written in the function ITSELF: LLVM 14 resolves
+    # forward-referenced blockaddress operands of another function through a map whose ordering is undefined between a named and a numbered block — the same
+    # file assembles to different modules from run to run — and refuses numbered labels of a function already defined)
+    def inside(uses, rest):
+        return "define void @f(i8** %p) {\n" + "".join("\tstore i8* %s, i8** %%p\n" % u for u in uses) + rest
+    out.append(("blockaddress.block-named-digits", inside(['blockaddress(@f, %"x1")', 'blockaddress(@f, %1)'], '\tbr label %1\n\n1:\n\tbr label %x1\n\nx1:\n\tret void\n}\n'),
+                ['store i8* blockaddress(@f, %x1), i8** %p', 'store i8* blockaddress(@f, %1), i8** %p']))
+    out.append(("blockaddress.quoted-digits-next-to-id", inside(['blockaddress(@f, %"1")', 'blockaddress(@f, %1)', 'blockaddress(@f, %"42")'],
+                                                                '\tbr label %1\n\n1:\n\tbr label %"1"\n\n"1":\n\tbr label %"42"\n\n"42":\n\tret void\n}\n'),
+                ['store i8* blockaddress(@f, %"1"), i8** %p', 'store i8* blockaddress(@f, %1), i8** %p', 'store i8* blockaddress(@f, %"42"), i8** %p']))
+    out.append(("blockaddress.quoted-digits-global", '@t = global [2 x i8*] [i8* blockaddress(@f, %"7"), i8* blockaddress(@f, %"42")]\n\ndefine void @f() {\n\tbr label %"7"\n\n"7":\n\tbr label %"42"\n\n"42":\n\tret void\n}\n',
+                ['[i8* blockaddress(@f, %"7"), i8* blockaddress(@f, %"42")]']))
+    out.append(("blockaddress.signed-looking-names", '@t = global [2 x i8*] [i8* blockaddress(@f, %-7), i8* blockaddress(@f, %"+5")]\n\ndefine void @f() {\n\tbr label %-7\n\n-7:\n\tbr label %"+5"\n\n"+5":\n\tret void\n}\n',
+                ['[i8* blockaddress(@f, %-7), i8* blockaddress(@f, %"+5")]']))
+    # functions and blocks whose dotted names concatenate alike: `a.b` + `c` and `a` + `b.c`
+    dotted = ('@t = global [4 x i8*] [i8* blockaddress(@a.b, %c), i8* blockaddress(@a, %b.c), i8* blockaddress(@a.b, %c), i8* blockaddress(@a, %b.c)]\n'
+              '@t1 = global i8* blockaddress(@a.b, %c)\n@t2 = global i8* blockaddress(@a, %b.c)\n@t3 = global i8* blockaddress(@a.b, %c)\n@t4 = global i8* blockaddress(@a, %b.c)\n\n'
+              'define void @a.b() {\n\tbr label %c\n\nc:\n\tret void\n}\n\ndefine void @a() {\n\tbr label %b.c\n\nb.c:\n\tret void\n}\n')
+    out.append(("blockaddress.dotted-names", dotted, ['[i8* blockaddress(@a.b, %c), i8* blockaddress(@a, %b.c), i8* blockaddress(@a.b, %c), i8* blockaddress(@a, %b.c)]',
+                                                      '@t1 = global i8* blockaddress(@a.b, %c)', '@t2 = global i8* blockaddress(@a, %b.c)', '@t3 = global i8* blockaddress(@a.b, %c)',
+                                                      '@t4 = global i8* blockaddress(@a, %b.c)']))
+    # more than a dozen unnamed entities of all four kinds interleaved (the IDs follow the order of the text; an unstable sort by kind shows from 13 on)
+    parts, k = [], 0
+    for i in range(8):
+        parts.append("@%d = global i32 %d\n" % (k, 100 + k)); k += 1
+        parts.append("define i32 @%d() {\n\tret i32 %d\n}\n" % (k, 100 + k)); k += 1
+        if i % 2 == 0:
+            parts.append("@%d = alias i32, i32* @0\n" % k); k += 1
+    out.append(("unnamed.many-interleaved", "\n".join(parts), ["ret i32"]))
+    # the same !DIArgList text in two functions (each refers to its own function's values)
+    dal = ('declare void @llvm.dbg.value(metadata %0, metadata %1, metadata %2)\n\n'
+           'define void @f(i32 %x) {\n\tcall void @llvm.dbg.value(metadata !DIArgList(i32 %x), metadata !0, metadata !DIExpression())\n\tret void\n}\n\n'
+           'define void @g(i32 %x) {\n\tcall void @llvm.dbg.value(metadata !DIArgList(i32 %x), metadata !0, metadata !DIExpression())\n\tcall void @llvm.dbg.value(metadata !DIArgList(i32 %x), metadata !0, metadata !DIExpression())\n\tret void\n}\n\n!0 = !{}\n')
+    out.append(("diarglist.same-text-two-functions", dal, ["metadata !DIArgList(i32 %x)"]))
+    # numbered type definitions among names that sort below the digits, between them and above them
+    tys = ['%0', '%1', '%2', '%10', '%.a', '%$s', '%-m', '%"1a"', '%z9', '%z10', '%"!x"', '%"2 b"']
+    out.append(("typedefs.numbered-among-names", "".join("%s = type { [%d x i8] }\n" % (t, i + 1) for i, t in enumerate(tys)) + "\n" + "".join("@g%d = global %s zeroinitializer\n" % (i, t) for i, t in enumerate(tys)),
+                ["@g%d = global %s zeroinitializer" % (i, t) for i, t in enumerate(tys)]))
+    return out
+
+
 def layout_entries():
     """a value USED in a block that is written BEFORE the block that defines it (legal: the definition dominates through the CFG): the parser types forward
     references from the scaffold it builds in a first pass, so a constant next to such an operand is built at the scaffold's type"""
@@ -778,4 +830,4 @@ def layout_entries():
 
 
 def all_entries(rows):
-    return kw_entries(rows) + STRUCTURED + NAMED_NONSTRUCT + inst_entries() + DI + MISC + comdat_entries() + flag_cross_entries() + addrspace_cross_entries() + written_type_entries() + REPEATS + UINT_LITS + order_entries() + DI_REFS + clausegen.all_entries() + layout_entries() + round13_entries()
+    return kw_entries(rows) + STRUCTURED + NAMED_NONSTRUCT + inst_entries() + DI + MISC + comdat_entries() + flag_cross_entries() + addrspace_cross_entries() + written_type_entries() + REPEATS + UINT_LITS + order_entries() + DI_REFS + clausegen.all_entries() + layout_entries() + round13_entries() + round14_entries()
